@@ -112,6 +112,8 @@ func runExhaustive(res *lib.Result, pool *DrvPool, v Variant, r *lib.RNG) {
 func (w *World) rpcFamily(filters []Filt) int {
 	head := len(w.Chain) - 1
 	pre := []Plan{{{Ev{From: 0, Keys: []int{0}}, Ev{From: 1, Keys: []int{1}}}}, {{Ev{From: 0}}}}
+	const l1 = 3
+	_ = w.Node.BC.SetL1Head(&core.L1Head{BlockNumber: l1, BlockHash: lib.F(1), StateRoot: lib.F(2)})
 	n := 0
 	for fi := 0; fi < len(filters); fi += 4 {
 		f := filters[fi]
@@ -122,13 +124,16 @@ func (w *World) rpcFamily(filters []Filt) int {
 			for _, from := range []struct {
 				tag string
 				n   int
-			}{{"", 0}, {"", head}, {"latest", 0}, {"pre_confirmed", 0}, {"hash", 2}} {
+			}{{"", 0}, {"", head}, {"latest", 0}, {"pre_confirmed", 0}, {"hash", 2}, {"l1_accepted", 0}} {
 				for _, to := range []struct {
 					tag string
 					n   int
-				}{{"", head - 1}, {"", head}, {"", head + 1}, {"", head + 3}, {"latest", 0}, {"pre_confirmed", 0}, {"hash", head}} {
+				}{{"", head - 1}, {"", head}, {"", head + 1}, {"", head + 3}, {"latest", 0}, {"pre_confirmed", 0}, {"hash", head}, {"l1_accepted", 0}} {
+					if api == "v8" && (from.tag == "l1_accepted" || to.tag == "l1_accepted") {
+						continue
+					}
 					for _, withPre := range []bool{false, true} {
-						q := Q{F: f, From: from.n, To: to.n, FromTag: from.tag, ToTag: to.tag, Chunk: 2, Rpc: true, Api: api}
+						q := Q{F: f, From: from.n, To: to.n, FromTag: from.tag, ToTag: to.tag, Chunk: 2, Rpc: true, Api: api, L1: l1}
 						if withPre && api != "v8" {
 							q.Pre = pre
 						}
